@@ -101,6 +101,11 @@ CHECKS = {
    "For every generated type: every annotation of the type's schema occurs in the document, and RefSchema(S_src, i) == RefSchema(S_doc, i) for every enumerated instance i. The thorough tier audits RefSchema itself against the Python jsonschema package.",
    "RefSchema / InstanceGen are harness code (audited); `nullable` is read as admitting null on both sides; tuples and type arrays are outside the supported types",
    "DESIGN.md section 4/C08"),
+ "C07": ("E4+E2-live", "exploration",
+   "program-grammar enumeration of endpoints (base endpoint + every <=1 / thorough <=2 deviation over path-parameter type, query shape, body kind, response kind, payload, error type), compiled against /repo and served live; requests derived from the generated OpenAPI document only (canonical instance + all valid single point-mutations of every parameter and body schema, every subset of optional parameters)",
+   "Every document-derived request gets a documented success status, a documented content type and a body valid against the schema documented for that status; omitting a required query parameter is refused with 4xx; framework error bodies validate against the operation's documented error response.",
+   "RefSchema / InstanceGen are harness code (shared with C08, audited in its thorough tier); well-known string formats (uuid, date-time, ip) are honoured as constraints",
+   "DESIGN.md section 4/C07"),
 }
 
 NOT_YET = {
@@ -141,7 +146,7 @@ def main():
       "engines": [
         {"name": "E1", "path": "harness/src/e1.rs + harness/src/bin/e1.rs", "serves_properties": ["C01","C02","C04","C06"], "kind_free_text": "stateless explicit exploration of registration histories on the real ApiDescription/HttpRouter"},
         {"name": "E3", "path": "harness/src/live.rs + harness/src/e3.rs + harness/src/bin/e3.rs", "serves_properties": ["C16","C17","C18"], "kind_free_text": "live event explorer: real HttpServer on loopback, raw TCP client, gated handlers, in-memory slog drain; stateless replay of every history"},
-        {"name": "E4", "path": "harness/zoo/build.rs + harness/zoo/gen_c08.rs + harness/zoo/src", "serves_properties": ["C08","C19"], "kind_free_text": "program-grammar generator: declarations / types / endpoints enumerated by a build script, compiled against /repo, checked against the generator's record"},
+        {"name": "E4", "path": "harness/zoo/build.rs + harness/zoo/gen_c08.rs + harness/zoo/src", "serves_properties": ["C07","C08","C19"], "kind_free_text": "program-grammar generator: declarations / types / endpoints enumerated by a build script, compiled against /repo, checked against the generator's record"},
         {"name": "E2", "path": "harness/src/bin/c03.rs c05.rs ...", "serves_properties": ["C03","C05","C09","C10","C11","C12","C13","C14","C15","C20"], "kind_free_text": "bounded-exhaustive input enumeration against reference functions, on the real public functions"},
       ],
       "checks": checks,
